@@ -152,19 +152,19 @@ def run(ctx):
     dicts = dictionaries(ctx)
     ifaces = interfaces(ctx)
     runner = F.Runner(ctx, "c35")
-    seeds, ntried = ([], 0) if replay else choose_seeds(ctx, dicts, 6 if T else 2, runner)
-    if not replay and len(seeds) < (6 if T else 2):
+    seeds, ntried = ([], 0) if replay else choose_seeds(ctx, dicts, 3 if T else 2, runner)
+    if not replay and len(seeds) < (3 if T else 2):
         raise Broken("only %d of %d seed files are accepted by the real mfront in original and token form" % (len(seeds), ntried))
     core.write_ndjson(ctx.path("dict.ndjson"), dicts)
     core.write_ndjson(ctx.path("seeds.ndjson"), [{"seed": r["seed"], "dsl": r["dsl"], "kind": r["kind"], "stmts": r["stmts"]} for r in seeds])
     foreign = ["@Integrator", "@Function", "@FlowRule", "@Derivative", "@Law", "@Model", "@Behaviour", "@Brick", "@Gradient", "@Output"]
     # quick: 3 DSLs (a material property, a model, the richest behaviour DSL), one mistake per file, 32 kinds of mistakes
-    par = {"dsls": [1, 2, 3], "insdsls": [1, 3], "maxmut": 1, "nodsl": 1, "allkinds": 0, "rawn": 2, "rawfull": 0,
+    par = {"dsls": [1, 2, 3], "insdsls": [1, 3], "fordsls": [1, 3], "maxmut": 1, "nodsl": 1, "allkinds": 0, "rawn": 2, "rawfull": 0,
            "kinds": QUICK_KINDS, "shapes": ["word", "eof"], "fshapes": [], "foreign": foreign[:2],
            "seedkinds": QUICK_KINDS, "seedforeign": foreign[:1]}
     if T:
-        par.update({"rawn": 2, "rawfull": 1, "dsls": list(range(1, len(DSLS) + 1)), "insdsls": list(range(1, len(DSLS) + 1)), "allkinds": 1,
-                    "shapes": ["none", "word", "typed", "block", "eof"], "fshapes": ["eof"], "foreign": foreign, "seedforeign": foreign[:3]})
+        par.update({"rawn": 2, "rawfull": 1, "dsls": list(range(1, len(DSLS) + 1)), "insdsls": list(range(1, len(DSLS) + 1)), "fordsls": [1, 2, 3, 11], "allkinds": 1,
+                    "shapes": ["word", "eof"], "fshapes": ["eof"], "foreign": foreign, "seedforeign": foreign[:3]})
     json.dump(par, open(ctx.path("params.json"), "w"))
     genv = {"PARAMS": ctx.path("params.json"), "DICT": ctx.path("dict.ndjson"), "SEEDS": ctx.path("seeds.ndjson")}
     preset = {}
@@ -186,7 +186,7 @@ def run(ctx):
                     raise Broken("keyword %s of the skeleton of %s is not in the dictionary of the real tool" % (k, c["dsl"]))
         muts = {c["mut"].split("+")[0] for c in cases}
         need = {"drop_semi", "drop_close", "open_str", "trunc_kw", "num_huge", "lastword_array_neg", "open_comment", "nul", "dup", "del",
-                "eof_mid", "foreign_kw", "insert_word", "insert_eof"} | ({"foreign_eof", "insert_block", "str_utf8", "deep_paren"} if T else set())
+                "eof_mid", "foreign_kw", "insert_word", "insert_eof"} | ({"foreign_eof", "str_utf8", "deep_paren"} if T else set())
         if not need <= muts:
             raise Broken("GEN misses mutation kinds: %s" % sorted(need - muts))
         if sum(1 for c in cases if c["fam"] == "seed") < 150:
@@ -209,17 +209,17 @@ def run(ctx):
         kind = c["kind"]
         sp = SEARCH if c["fam"] == "seed" else []
         add(c, "mfront:" + first[kind], ["--interface=" + first[kind]] + sp, data, c["expect"])
-        if c["id"] % (2 if T else 4) == 0 or c["mut"] == "valid":
+        if c["id"] % 4 == 0 or c["mut"] == "valid":
             add(c, "mfront-query", QUERIES[kind] + sp, data, c["expect"])
         if T:
             others = [i for i in ifaces[kind] if i != first[kind]]
             if others:
-                i2 = others[(c["id"] // 4) % len(others)]
-                if c["id"] % 4 == 1:
+                i2 = others[(c["id"] // 8) % len(others)]
+                if c["id"] % 8 == 1:
                     add(c, "mfront:" + i2, ["--interface=" + i2] + sp, data, "any")
-            if c["id"] % 8 == 3:
+            if c["id"] % 32 == 3:
                 add(c, "mfront-query:2", QUERIES2[kind] + sp, data, "any")
-            if c["id"] % 16 == 7:
+            if c["id"] % 32 == 7:
                 add(c, "mfront:none", sp, data, "any")
     nplain = len(jobs)
     asan = None
@@ -227,14 +227,13 @@ def run(ctx):
         asan = F.asan_build(ctx, ["mfront", "mfront-query"])
         if asan:
             env = dict(F.ASAN_ENV, LD_LIBRARY_PATH=F.asan_lib_path())
-            for c in cases:
-                if c["id"] % 6 != 2 and c["mut"] != "valid":
-                    continue
+            for n, c in enumerate(F.sanitized_subset(cases, 1000)):
                 kind = c["kind"]
                 sp = SEARCH if c["fam"] == "seed" else []
-                add(c, "asan-mfront:" + first[kind], ["--interface=" + first[kind]] + sp, files[c["id"]], c["expect"], env=env, build=asan, limit=60)
-                if c["id"] % 12 == 2:
-                    add(c, "asan-mfront-query", QUERIES[kind] + sp, files[c["id"]], c["expect"], env=env, build=asan, limit=60)
+                if n % 4 != 3:
+                    add(c, "asan-mfront:" + first[kind], ["--interface=" + first[kind]] + sp, files[c["id"]], c["expect"], env=env, build=asan, limit=90)
+                else:
+                    add(c, "asan-mfront-query", QUERIES[kind] + sp, files[c["id"]], c["expect"], env=env, build=asan, limit=90)
     killed = F.judge_selftest(ctx, "mfront/MFrontInputJudge")
     obs, infos = runner.run(jobs)
     for o in obs:
@@ -273,7 +272,7 @@ def run(ctx):
     slow = sorted(((infos[o["id"]]["wall"], o["tool"], o["kw"], o["mut"]) for o in obs), reverse=True)[:5]
     cov = {"states": mc.distinct, "transitions": mc.generated, "mc_depth": mc.depth,
            "files": len(cases), "grammar_files": sum(1 for c in cases if c["fam"] == "gram"), "raw_files": sum(1 for c in cases if c["fam"] == "raw"), "seed_files": sum(1 for c in cases if c["fam"] == "seed"),
-           "seeds": [os.path.basename(r["path"]) for r in seeds], "runs": len(obs), "sanitized_runs": len(jobs) - nplain,
+           "seeds": [os.path.basename(r["path"]) for r in seeds], "runs": len(obs), "sanitized_runs": len(jobs) - nplain, "timeouts_rechecked": getattr(runner, "confirmed_timeouts", 0),
            "traces_validated_against_impl": len(obs), "outcomes": outcomes, "rejected_observations": len(bad),
            "distinct_signatures": len(nsig), "judge_selftest_rejections": killed, "mutation_kinds": sorted({c["mut"] for c in cases if "+" not in c["mut"]}),
            "keywords": len({c["kw"] for c in cases}), "interfaces": ifaces, "slowest_runs": slow, "sanitizer_report_frames": frames,
@@ -284,6 +283,7 @@ def run(ctx):
         "bounded time = 20 s per run (60 s under the sanitizers); normal runs take 0.05-0.2 s; address space limited to 6 GB (none under the sanitizers)",
         "files are generated by TLC from MFrontInput.tla (12 DSLs) and by mutation of repository inputs chosen for keyword coverage; arbitrary byte "
         "strings are covered only through the byte-level mistakes (NUL, invalid UTF-8, control bytes, unterminated strings / comments / raw strings)",
-        "quick: 3 DSLs, 32 kinds of mistakes, 2 seed files, mfront-query on a quarter of the files; thorough: 12 DSLs, every kind, 6 seed files, every "
-        "interface of the build by rotation, a second query set, sanitized binaries (ASan+UBSan) on a sixth of the files; one process start costs 0.2 s",
+        "quick: 3 DSLs, 32 kinds of mistakes, 2 seed files, mfront-query on a quarter of the files; thorough: 12 DSLs, every kind, 3 seed files, every "
+        "interface of the build by rotation, a second query set, sanitized binaries (ASan+UBSan without vptr) on 1000 files chosen one per "
+        "(DSL, keyword, mistake), end-of-input mistakes first; a run that reaches the time limit is repeated alone with three times the limit",
         "interfaces are those compiled in the verification build (cmake defaults): generic for behaviours and models, all material property interfaces"])
